@@ -30,12 +30,22 @@ SameObj(a, b)    == (Solved(a) /\ Solved(b) /\ Obj(a) # NONE /\ Obj(b) # NONE)
                             <= Max2(Tol(a), Tol(b)) * a.cmp[1] * b.cmp[1] * a.cmp[2] * b.cmp[2]
 Usable(r) == r.timeout = FALSE /\ r.skip = FALSE
 
+(* a float-weighted run can only be as good or better than the integer-weighted run of the same input *)
+FloatNoWorse(a, b) ==
+  (Solved(a) /\ Solved(b) /\ a.wt = "int" /\ b.wt = "float" /\ Obj(a) # NONE /\ Obj(b) # NONE)
+     => Obj(b) * a.cmp[1] * b.cmp[2] <= Obj(a) * b.cmp[1] * a.cmp[2]
+                                        + Tol(b) * a.cmp[1] * b.cmp[1] * a.cmp[2] * b.cmp[2]
+IntSolvedImpliesFloatSolved(a, b) == (a.wt = "int" /\ b.wt = "float" /\ Solved(a)) => Solved(b)
+
 Clauses == CASE PROP = "C04" -> {"SameSolved", "SameCount"}
+             [] PROP \in {"C07", "C08"} -> {"FloatNoWorse", "IntSolvedImpliesFloatSolved"}
              [] OTHER -> {"SameSolved", "SameObj"}
 
 Holds(c, a, b) == CASE c = "SameSolved" -> SameSolved(a, b)
                     [] c = "SameCount"  -> SameCount(a, b)
                     [] c = "SameObj"    -> SameObj(a, b)
+                    [] c = "FloatNoWorse" -> FloatNoWorse(a, b)
+                    [] c = "IntSolvedImpliesFloatSolved" -> IntSolvedImpliesFloatSolved(a, b)
 
 VARIABLES grp, first, pending, failed
 vars == <<grp, first, pending, failed>>
